@@ -397,7 +397,7 @@ def _eval_own(model, zkind, rec, own, existing, missing):
                     ok = K == 'KWO' or (K in ('POK', 'PO') and v)
                     if not ok:
                         out.append(('sound', '%s: stored with kind %s but the %s input only takes it by keyword' % (where, K, oth)))
-                    if not any(c2[0] == 'M' and c2[2] == 'pop' for c2 in pv.conc) and not any(c2[0] == 'S' for c2 in pv.conc):
+                    if not any(c2[0] == 'M' and c2[2] in ('pop', 'get') for c2 in pv.conc) and not any(c2[0] == 'S' for c2 in pv.conc):
                         out.append(('sound', '%s: not conciled with the %s input\'s keyword-only parameter of the same name' % (where, oth)))
                         out.append(('conc', '%s: not conciled with the %s input\'s keyword-only parameter of the same name '
                                             '(default/annotation rules are bypassed)' % (where, oth)))
@@ -746,7 +746,10 @@ def concile_table(check, repo, rules):
         # default column
         dl, dr = lits.get(('has_default', L)), lits.get(('has_default', R))
         d = kws.get('default')
-        unknown = [l for l in p.lits if l[0][0] not in ('has_default', 'has_annotation', 'eq')]
+        def _between(atom, attr):
+            return set([atom[1], atom[2]]) == set([('A', L, attr), ('A', R, attr)])
+        unknown = [l for l in p.lits if l[0][0] not in ('has_default', 'has_annotation', 'eq')
+                   and not (l[0][0] == 'is' and (_between(l[0], 'default') or _between(l[0], 'annotation')))]
         if d is None:
             # default not overridden: keeps base's default
             dclass = 'base'
@@ -765,6 +768,15 @@ def concile_table(check, repo, rules):
             if atom[0] == 'eq' and set([atom[1], atom[2]]) == set([('A', L, 'default'), ('A', R, 'default')]):
                 eqdef = pol
         msgs = []
+        # identity instead of equality between the two user-supplied values: identical implies equal, but the
+        # not-identical branch still contains equal values (two equal floats, tuples, strings built at run time)
+        for atom, pol in p.lits:
+            if atom[0] == 'is' and _between(atom, 'default'):
+                if pol:
+                    eqdef = True
+                elif dclass == 'none':
+                    msgs.append(('value', 'the defaults are compared by identity (is): equal defaults that are distinct objects '
+                                          '(1.5 and 1.5, two equal tuples) are treated as different and replaced by None'))
         # `empty` is a sentinel: equal defaults are both set or both missing
         if eqdef is True:
             if dl is not None and dr is None:
@@ -802,6 +814,15 @@ def concile_table(check, repo, rules):
         for atom, pol in p.lits:
             if atom[0] == 'eq' and set([atom[1], atom[2]]) == set([('A', L, 'annotation'), ('A', R, 'annotation')]):
                 eqann = pol
+
+        for atom, pol in p.lits:
+            if atom[0] == 'is' and _between(atom, 'annotation'):
+                if pol:
+                    eqann = True
+                else:
+                    eqann = False
+                    msgs.append(('annot', 'the annotations are compared by identity (is): equal annotations that are distinct objects '
+                                          '(two equal strings / typing constructs) are treated as different'))
 
         def aclass(t, attr):
             if t is None:
